@@ -217,7 +217,11 @@ func checkLocation(rq rsx.Req, loc string) string {
 	if res.Fragment != "" {
 		return fmt.Sprintf("Location %q carries a fragment %q", loc, res.Fragment)
 	}
-	wantDecoded := adjust(rq.Path)
+	// the slash is adjusted on the escaped form (an escaped "%2F" at the end is not a trailing slash)
+	wantDecoded, err := url.PathUnescape(adjust(base.EscapedPath()))
+	if err != nil {
+		wantDecoded = adjust(rq.Path)
+	}
 	if res.Path != wantDecoded {
 		return fmt.Sprintf("Location %q resolves to path %q, want %q", loc, res.Path, wantDecoded)
 	}
@@ -351,7 +355,9 @@ func runPool(c *mc.Ctx, r *mc.Result, pd poolDef) {
 func runEncoded(c *mc.Ctx, r *mc.Result) {
 	type seg struct{ dec, raw string }
 	segs := []seg{{"a", ""}, {"a:b", ""}, {"a?b", "a%3Fb"}, {"a#b", "a%23b"}, {"a%b", "a%25b"}, {"a b", "a%20b"}, {"é", ""}, {"é", "%C3%A9"},
-		{"https:e.com", ""}, {"a/b", "a%2Fb"}, {"a;b", ""}, {"a&b=c", ""}, {"..a", ""}, {"a=b", ""}, {"a+b", ""}, {"@a", ""}, {"a\\b", "a%5Cb"}}
+		{"https:e.com", ""}, {"a/b", "a%2Fb"}, {"a;b", ""}, {"a&b=c", ""}, {"..a", ""}, {"a=b", ""}, {"a+b", ""}, {"@a", ""}, {"a\\b", "a%5Cb"},
+		// escaped separators and dots: the escaped form is clean although the decoded form is not
+		{"a//b", "a%2F%2Fb"}, {"a/./b", "a%2F.%2Fb"}, {"a/", "a%2F"}, {"/a", "%2Fa"}, {"..", "%2E%2E"}, {".", "%2E"}, {"a/../b", "a%2F..%2Fb"}}
 	sets := [][]rsx.RouteSpec{
 		{{Pattern: "/{p0}/", Slash: rsx.SlashRedirect}},
 		{{Pattern: "/{p0}", Slash: rsx.SlashRedirect}},
